@@ -503,6 +503,13 @@ pub fn check_all(obs: &Obs, out: &mut CaseOut) -> Summary {
                                         if abandoned && class == "key-stale" {
                                             linked_at_request.push_str("/after-abandoned-sync");
                                         }
+                                        // A clear delivered inside the window: an older clear that was still queued as a
+                                        // standard event when the sync's targeted entries were queued wipes them (the
+                                        // component-level finding sync-window/key-missing/linked-observer/last-frame=clear).
+                                        let clear_in_window = lf.frames.iter().any(|x| x.kind == FrameKind::Event && x.ticket > t_q && x.ticket < t_s && body_str(x).trim() == "@clear");
+                                        if clear_in_window && class == "key-missing" {
+                                            linked_at_request.push_str("/clear-in-window");
+                                        }
                                         out.violation(
                                             "C03",
                                             format!("snapshot-outside-window/map/{class}/linked-at-request={linked_at_request}"),
